@@ -349,4 +349,14 @@ fire('eff-rules-on-class', ['C18'], ['EFF-5', 'EFF-1'], 'rule instances are cach
 silent('eff-local-list', ['C18'], 'a local list is mutated inside the parser',
        (PARSER, "        for push in plan.dfa_pushes:\n            stack.append(StackNode(push))", "        pushed = []\n        for push in plan.dfa_pushes:\n            pushed.append(push)\n            stack.append(StackNode(push))"))
 
+# GR-10: child indexes vs rule shapes
+fire('shape-annassign-guard', ['C14'], ['GR-10'], 'length guard of annassign weakened: children[2] of a two-child annassign',
+     (PYTREE, "            if len(first.children) <= 2:\n                return  # No operator is available, it's just PEP 484.", "            if len(first.children) < 2:\n                return  # No operator is available, it's just PEP 484."))
+fire('shape-fstring-conversion', ['C13'], ['GR-10'], 'fstring_expr.children[3] read without the "=" test that makes it exist',
+     (ERRORS, "        if children_2.type == 'operator' and children_2.value == '=':\n            conversion = fstring_expr.children[3]", "        if children_2.type == 'operator':\n            conversion = fstring_expr.children[3]"))
+fire('shape-grammar-short-with-item', ['C13', 'C14'], ['GR-10'], 'a grammar gains a two-child with_item while the helpers read children[2]',
+     (G('312'), "\nwith_item: test ['as' expr]\n", "\nwith_item: test ['as' expr] | test '->'\n"))
+silent('shape-for-testlist-alias', ['C14'], 'ForStmt.get_testlist through a local',
+       (PYTREE, "        return self.children[3]\n", "        testlist = self.children[3]\n        return testlist\n"))
+
 VARIANTS = [v for v in VARIANTS if v is not None]
